@@ -69,7 +69,10 @@ var (
 		"1.0", "100", "1e21", "1e-7", "123456789.125", "9007199254740991", "9007199254740992", "9007199254740993",
 		"-9007199254740993", "1e308", "1.7976931348623157e308", "5e-324", "2.2250738585072014e-308", "1e-400",
 		"123456789012345678901234567890", "0.000001", "0.0000001", "3.141592653589793", "1e22", "1e23", "0e0", "-0.0",
-		"4", "3.9999999999999996", "18446744073709551616", "0.1e1", "12e-1"}
+		"4", "3.9999999999999996", "18446744073709551616", "0.1e1", "12e-1",
+		// around the int64 / uint64 limits (a whole number is not necessarily an int64)
+		"9223372036854775807", "9223372036854775808", "-9223372036854775808", "-9223372036854775809", "9.5e18", "-9999999999999990000",
+		"18446744073709551615", "9999999999999999999", "1e19", "4294967296", "2147483648", "-2147483649"}
 	jsonHardStrings = [][2]string{ // decoded / literal ("" literal = encode minimally)
 		{"", ""}, {"x", ""}, {" ", ""}, {" x ", ""}, {"\u00e9", ""}, {"\u00e9", jsonEscapeAll("\u00e9")}, {"\U0001F600", ""},
 		{"\U0001F600", jsonEscapeAll("\U0001F600")}, {"\"", ""}, {"\\", ""}, {"/", `"\/"`}, {"/", ""}, {"\b\f\n\r\t", ""}, {"\n", ""},
